@@ -505,6 +505,6 @@ def handshake_deadline(h):
 
 def replay_handshake_deadline(model, params, role):
     if "timer-extends-the-handshake" in role:
-        return "handshake_drip 500 300 10\n", (lambda out: "STILL OPEN" in out), \
-            "PULL listener with HANDSHAKE_IVL=500 ms, raw peer sends one greeting byte every 300 ms for 3 s; expecting the connection to stay open"
+        return "handshake_drip 500 100 30\n", (lambda out: "STILL OPEN" in out), \
+            "PULL listener with HANDSHAKE_IVL=500 ms, raw peer sends one greeting byte every 100 ms for 3 s; expecting the connection to stay open"
     return None
